@@ -17,16 +17,22 @@ Proof.
 Qed.
 
 Lemma kh_all_keys :
-  (forall t, all_keys (kh_type t) = true) /\ (forall ms, all_keys (kh_members ms) = true).
+  (forall t, all_keys (kh_collect t) = true) /\ (forall ms, all_keys (kh_collect_ms ms) = true).
 Proof.
-  apply ty_members_ind; intros; cbn [kh_type kh_members all_keys]; auto.
+  apply ty_members_ind; intros; cbn [kh_collect kh_collect_ms all_keys]; auto.
   destruct key; [cbn [all_keys andb]; auto|].
   destruct (is_struct t && negb opt); auto using all_keys_mapp.
 Qed.
 
-Lemma kh_members_keys : forall ms, all_keys ms = true -> kh_members ms = ms.
+Lemma all_keys_renumber : forall ms n, all_keys (renumber n ms) = all_keys ms.
+Proof. induction ms; intros; cbn [renumber all_keys]; auto. rewrite IHms. reflexivity. Qed.
+
+Lemma renumber_idem : forall ms n, renumber n (renumber n ms) = renumber n ms.
+Proof. induction ms; intros; cbn [renumber]; auto. rewrite IHms. reflexivity. Qed.
+
+Lemma kh_members_keys : forall ms, all_keys ms = true -> kh_collect_ms ms = ms.
 Proof.
-  induction ms as [|i k o t r IH]; intros H; cbn [kh_members all_keys] in *; auto.
+  induction ms as [|i k o t r IH]; intros H; cbn [kh_collect_ms all_keys] in *; auto.
   apply andb_prop in H as [-> H]. rewrite IH; auto.
 Qed.
 
@@ -91,15 +97,18 @@ Theorem reader_key_derivation : forall t d kd,
 Proof.
   intros t d kd Hkd. unfold reader_handle_from_key, instance_handle, key_bytes. rewrite Hkd. cbn [bind].
   destruct t as [p|b|e b|e dims|x ms]; try (cbn in Hkd; inversion Hkd; reflexivity).
-  cbn [key_holder_ty kh_type].
-  pose proof (proj2 kh_all_keys ms) as HK. set (K := kh_members ms) in *.
-  unfold key_holder_data. cbn [kh_fill_ty].
-  rewrite (proj2 kh_fill_factors), (kh_members_keys K HK), (key_vals_keys K kd HK).
+  cbn [key_holder_ty].
+  set (K := kh_type (TStruct x ms)) in *.
+  assert (HK : all_keys K = true).
+  { unfold K, kh_type. rewrite all_keys_renumber. apply (proj1 kh_all_keys). }
+  assert (HKK : kh_type (TStruct x K) = K).
+  { unfold kh_type at 1. cbn [kh_collect]. rewrite (kh_members_keys K HK). unfold K, kh_type. apply renumber_idem. }
+  rewrite key_holder_data_factors, HKK. cbn [key_vals_ty]. rewrite (key_vals_keys K kd HK).
   (* the writer's key holder *)
-  rewrite key_holder_data_factors in Hkd. cbn [key_vals_ty kh_type] in Hkd. fold K in Hkd.
-  destruct (key_vals ms d) as [vs| |] eqn:V; cbn [bind] in Hkd; try discriminate.
+  rewrite key_holder_data_factors in Hkd. fold K in Hkd.
+  destruct (key_vals_ty (TStruct x ms) d) as [vs| |] eqn:V; cbn [bind] in Hkd; try discriminate.
   inversion Hkd as [Hb]. clear Hkd.
-  pose proof (proj2 key_vals_length ms d vs V) as Hl. fold K in Hl.
+  pose proof (key_vals_length _ _ _ V) as Hl. fold K in Hl.
   assert (Hpres : forall i, mem i (ids_of K) = true -> lookup i kd <> None).
   { intros i Hi. subst kd. apply lookup_build_in; auto. }
   rewrite Hb. rewrite (gets_present _ _ Hpres). cbn [bind].
@@ -128,24 +137,21 @@ Proof.
   - unfold reader_handle. rewrite RK. rewrite (reader_key_derivation t d kd Hkd). exact Hh.
 Qed.
 
-(* --------------------------------------------- C11: the collision class *)
+(* ----------------------- C11: the former collision class (regression) *)
 
-(* struct Outer { #[key] a: u8 (id 0), b: Inner (id 1) }   struct Inner { #[key] x: u8 (id 0) } *)
+(* struct Outer { #[key] a: u8 (id 0), b: Inner (id 1) }   struct Inner { #[key] x: u8 (id 0) }:
+   before fix c1628d5 the samples (a=1,x=7) and (a=2,x=7) both got the handle 0707000..;
+   the key holder now numbers its members afresh *)
 Definition t_collision : ty :=
   TStruct Final (MCons 0 true false (TPrim PU8)
                 (MCons 1 false false (TStruct Final (MCons 0 true false (TPrim PU8) MNil)) MNil)).
 Definition d_col (a x : Z) : fields :=
   FCons 0 (VPrim SU8 a) (FCons 1 (VStruct (FCons 0 (VPrim SU8 x) FNil)) FNil).
 
-Lemma key_eq_of_handle_eq_refuted : exists t d1 d2 h,
-  key_type_ok t = true /\ key_ids_unique t = false /\
-  key_ok t d1 = true /\ key_ok t d2 = true /\
-  instance_handle t d1 = Ok h /\ instance_handle t d2 = Ok h /\
-  key_vals_ty t d1 <> key_vals_ty t d2.
-Proof.
-  exists t_collision, (d_col 1 7), (d_col 2 7), [7;7;0;0;0;0;0;0;0;0;0;0;0;0;0;0].
-  repeat split; try (vm_compute; reflexivity). vm_compute. discriminate.
-Qed.
+Lemma former_collision_witness :
+  instance_handle t_collision (d_col 1 7) = Ok [1;7;0;0;0;0;0;0;0;0;0;0;0;0;0;0] /\
+  instance_handle t_collision (d_col 2 7) = Ok [2;7;0;0;0;0;0;0;0;0;0;0;0;0;0;0].
+Proof. split; vm_compute; reflexivity. Qed.
 
 (* ------------------------------------------------ the boolean oracles *)
 
